@@ -25,9 +25,12 @@ handlers actually give (`responsesAlong`):
 * `pipeline_views` (C04 lifted) — at every position the container handed to handler *i*
   `ViewAgrees` with the spec the generator makes of the reply combined so far.
 
-Together: for guarded adjustments, running a chain of plugins through NRI is observationally the
-sequential composition of the plugins as spec transformers, each seeing the spec as adjusted so
-far.
+What this does NOT say: that NRI equals a pipeline in which each plugin is fed a container derived
+from the sequentially adjusted *spec*. Every handler is fed the collector's own view; view and
+spec are related only by `ViewAgrees` (environment as a map, mounts up to order, memory fields
+other than the limit and the block-I/O / RDT classes outside the relation), so a handler whose
+answer depends on what lies outside that relation may answer differently in the two worlds.
+The statements are C03 / C04 / C01 / C05 on the responses actually given.
 -/
 namespace Nri.Props.Pipeline
 open Nri Nri.NApi Nri.Result Nri.Compose Nri.Generate Nri.Ledger Nri.UpdateWalk
